@@ -12,15 +12,18 @@ structure ATask where
   total : Int
   completed : Int
   visible : Bool
+  description : Nat
+  fields : List (Nat × Int)
 deriving DecidableEq, Repr
 
 structure AState where
   tasks : List ATask
   nextId : Nat
+  started : Bool
 deriving DecidableEq, Repr
 
-def absTask (t : Task) : ATask := ⟨t.id, t.total, t.completed, t.visible⟩
-def absState (st : State) : AState := ⟨st.tasks.map absTask, st.nextId⟩
+def absTask (t : Task) : ATask := ⟨t.id, t.total, t.completed, t.visible, t.description, t.fields⟩
+def absState (st : State) : AState := ⟨st.tasks.map absTask, st.nextId, st.started⟩
 
 /-- clock-free specification of what an operation does to the counters of the task it addresses -/
 def aEffect (op : Op) (a : ATask) : ATask :=
@@ -28,8 +31,13 @@ def aEffect (op : Op) (a : ATask) : ATask :=
   | .update _ u =>
     { a with total := u.total.getD a.total,
              completed := u.completed.getD (a.completed + u.advance.getD 0),
-             visible := u.visible.getD a.visible }
-  | .reset _ _ tot c v => { a with total := tot.getD a.total, completed := c, visible := v.getD a.visible }
+             visible := u.visible.getD a.visible,
+             description := u.description.getD a.description,
+             fields := dictUpdate a.fields u.fields }
+  | .reset _ r =>
+    { a with total := r.total.getD a.total, completed := r.completed, visible := r.visible.getD a.visible,
+             description := r.description.getD a.description,
+             fields := if r.fields.isEmpty then a.fields else r.fields }
   | .advance _ amt => { a with completed := a.completed + amt }
   | _ => a
 
@@ -38,39 +46,56 @@ def aLookup (l : List ATask) (id : Nat) : Option ATask := l.find? (fun t => t.id
 /-- clock-free sequential specification of the counters -/
 def aBody (op : Op) (a : AState) : AState :=
   match op with
-  | .addTask _ total completed visible => ⟨a.tasks ++ [⟨a.nextId, total, completed, visible⟩], a.nextId + 1⟩
+  | .addTask x =>
+    ⟨a.tasks ++ [⟨a.nextId, x.total, x.completed, x.visible, x.description, x.fields⟩], a.nextId + 1, a.started⟩
+  | .refresh => a
+  | .start => { a with started := true }
+  | .stop => { a with started := false }
   | .removeTask id =>
     match aLookup a.tasks id with
     | none => a
-    | some _ => ⟨a.tasks.filter (fun t => t.id != id), a.nextId⟩
+    | some _ => ⟨a.tasks.filter (fun t => t.id != id), a.nextId, a.started⟩
   | op =>
     match op.target with
     | none => a
     | some id =>
       match aLookup a.tasks id with
       | none => a
-      | some x => ⟨a.tasks.map (fun t => if t.id = id then aEffect op x else t), a.nextId⟩
+      | some x => ⟨a.tasks.map (fun t => if t.id = id then aEffect op x else t), a.nextId, a.started⟩
 
 def aRun (ops : List Op) (a : AState) : AState := ops.foldl (fun a op => aBody op a) a
 
 theorem applyUpd_visible (u : UpdArgs) (t : Task) : (t.applyUpd u).visible = u.visible.getD t.visible := by
-  unfold Task.applyUpd; cases u.total <;> cases u.advance <;> cases u.completed <;> cases u.visible <;> simp
+  unfold Task.applyUpd; cases u.total <;> cases u.advance <;> cases u.completed <;> cases u.description <;> cases u.visible <;> simp
+theorem applyUpd_description (u : UpdArgs) (t : Task) : (t.applyUpd u).description = u.description.getD t.description := by
+  unfold Task.applyUpd; cases u.total <;> cases u.advance <;> cases u.completed <;> cases u.description <;> cases u.visible <;> simp
+theorem applyUpd_fields (u : UpdArgs) (t : Task) : (t.applyUpd u).fields = dictUpdate t.fields u.fields := by
+  unfold Task.applyUpd; cases u.total <;> cases u.advance <;> cases u.completed <;> cases u.description <;> cases u.visible <;> simp
+@[simp] theorem finishCheck_description (clock : Clock) (t : Task) (k : Nat) :
+    (t.finishCheck clock k).1.description = t.description := by
+  unfold Task.finishCheck; split <;> rfl
+@[simp] theorem finishCheck_fields (clock : Clock) (t : Task) (k : Nat) :
+    (t.finishCheck clock k).1.fields = t.fields := by
+  unfold Task.finishCheck; split <;> rfl
 
-theorem absTask_taskEffect (cfg : Cfg) (clock : Clock) (op : Op) (pre : Option Int) (t : Task) (k : Nat) :
-    absTask (taskEffect cfg clock op pre t k).1 = aEffect op (absTask t) := by
+theorem absTask_taskEffect (cfg : Cfg) (clock : Clock) (op : Op) (pre : Option Int) (o : Nat) (t : Task) (k : Nat) :
+    absTask (taskEffect cfg clock op pre o t k).1 = aEffect op (absTask t) := by
   cases op with
   | addTask => rfl
   | removeTask => rfl
   | startTask i => simp only [taskEffect]; split <;> rfl
   | stopTask i => rfl
-  | reset i s tot c v => rfl
+  | reset i r => rfl
+  | refresh => rfl
+  | start => rfl
+  | stop => rfl
   | update i u =>
     simp only [taskEffect, Task.updateBody, absTask, aEffect, finishCheck_id, finishCheck_total,
-      finishCheck_completed, finishCheck_visible, applyUpd_id, applyUpd_total, applyUpd_completed,
-      applyUpd_visible]
+      finishCheck_completed, finishCheck_visible, finishCheck_description, finishCheck_fields, applyUpd_id,
+      applyUpd_total, applyUpd_completed, applyUpd_visible, applyUpd_description, applyUpd_fields]
   | advance i a =>
     simp only [taskEffect, Task.advanceBody, absTask, aEffect, finishCheck_id, finishCheck_total,
-      finishCheck_completed, finishCheck_visible]
+      finishCheck_completed, finishCheck_visible, finishCheck_description, finishCheck_fields]
 
 theorem aLookup_map (l : List Task) (id : Nat) : aLookup (l.map absTask) id = (lookup l id).map absTask := by
   unfold aLookup lookup
@@ -103,7 +128,10 @@ theorem abs_body (cfg : Cfg) (clock : Clock) (op : Op) (pre : Option Int) (st : 
     cases htg : op.target with
     | none =>
       cases op with
-      | addTask s tot c v => simp [body, aBody, absState, absTask]
+      | addTask x => simp [body, aBody, absState, absTask]
+      | refresh => rfl
+      | start => simp only [body, aBody, absState]; split <;> simp_all
+      | stop => simp only [body, aBody, absState]; split <;> simp_all
       | removeTask i => exact absurd rfl (hr i)
       | startTask i => simp [Op.target] at htg
       | stopTask i => simp [Op.target] at htg
@@ -115,7 +143,7 @@ theorem abs_body (cfg : Cfg) (clock : Clock) (op : Op) (pre : Option Int) (st : 
       have hspec : aBody op (absState st) =
           match aLookup (absState st).tasks j with
           | none => absState st
-          | some x => ⟨(absState st).tasks.map (fun t => if t.id = j then aEffect op x else t), (absState st).nextId⟩ := by
+          | some x => ⟨(absState st).tasks.map (fun t => if t.id = j then aEffect op x else t), (absState st).nextId, (absState st).started⟩ := by
         cases op with
         | addTask => simp [Op.target] at htg
         | removeTask i => exact absurd rfl (hr i)
@@ -124,6 +152,9 @@ theorem abs_body (cfg : Cfg) (clock : Clock) (op : Op) (pre : Option Int) (st : 
         | update i u => simp only [Op.target, Option.some.injEq] at htg; subst htg; rfl
         | reset i => simp only [Op.target, Option.some.injEq] at htg; subst htg; rfl
         | advance i a => simp only [Op.target, Option.some.injEq] at htg; subst htg; rfl
+        | refresh => simp [Op.target] at htg
+        | start => simp [Op.target] at htg
+        | stop => simp [Op.target] at htg
       rw [hspec]
       simp only [absState, aLookup_map]
       cases lookup st.tasks j with
@@ -145,6 +176,46 @@ theorem abs_run (cfg : Cfg) (clock : Clock) (ops : List Op) (st : State) :
   induction ops generalizing st with
   | nil => rfl
   | cons op ops ih => simp only [run, aRun, List.foldl_cons]; rw [ih, abs_step]; rfl
+
+/-- the counters proper: the task table and the next id (not the display flag) -/
+def AState.core (a : AState) : List ATask × Nat := (a.tasks, a.nextId)
+
+theorem aBody_core_congr (op : Op) (a b : AState) (h : a.core = b.core) : (aBody op a).core = (aBody op b).core := by
+  obtain ⟨at_, an, as_⟩ := a
+  obtain ⟨bt, bn, bs⟩ := b
+  simp only [AState.core, Prod.mk.injEq] at h
+  obtain ⟨rfl, rfl⟩ := h
+  cases op with
+  | addTask x => rfl
+  | refresh => rfl
+  | start => rfl
+  | stop => rfl
+  | removeTask i => simp only [aBody]; cases aLookup at_ i <;> rfl
+  | startTask i => simp only [aBody, Op.target]; cases aLookup at_ i <;> rfl
+  | stopTask i => simp only [aBody, Op.target]; cases aLookup at_ i <;> rfl
+  | update i u => simp only [aBody, Op.target]; cases aLookup at_ i <;> rfl
+  | reset i r => simp only [aBody, Op.target]; cases aLookup at_ i <;> rfl
+  | advance i x => simp only [aBody, Op.target]; cases aLookup at_ i <;> rfl
+
+theorem aBody_display_core (op : Op) (a : AState) (h : op.isDisplay = true) : (aBody op a).core = a.core := by
+  cases op <;> first | rfl | simp [Op.isDisplay] at h
+
+/-- **The live display never touches the accounting**: dropping every `refresh` / `start` / `stop`
+from a history (those of any number of `_RefreshThread` wake-ups included) leaves all counters as
+they are. -/
+theorem aRun_drop_display (ops : List Op) : ∀ a b : AState, a.core = b.core →
+    (aRun ops a).core = (aRun (ops.filter (fun o => !o.isDisplay)) b).core := by
+  induction ops with
+  | nil => intro a b h; exact h
+  | cons op ops ih =>
+    intro a b h
+    cases hd : op.isDisplay with
+    | true =>
+      simp only [List.filter_cons, hd, Bool.not_true, Bool.false_eq_true, if_false, aRun, List.foldl_cons]
+      exact ih _ _ (by rw [aBody_display_core op a hd]; exact h)
+    | false =>
+      simp only [List.filter_cons, hd, Bool.not_false, if_true, aRun, List.foldl_cons]
+      exact ih _ _ (aBody_core_congr op a b h)
 
 /-- what one thread step is -/
 theorem stepThread_spec (cfg : Cfg) (clock : Clock) (i : Nat) (c c' : Conf) (e : Event)
